@@ -19,7 +19,7 @@ def plan(tier):
                                              'symbolic': 'the schedule (%d thread choices) and up to 2 spurious wake-ups' % K}))
     # the slow-waker scenario of the property text: W; two readers queue; a second write request queues; one reader is slow to wake up
     if tier == 'quick':
-        K = 24   # quick: every schedule PREFIX of 24 steps (no spurious wake-ups needed for this scenario); completion within the bound: thorough tier
+        K = 22   # quick: every schedule PREFIX of 22 steps (no spurious wake-ups needed for this scenario); completion within the bound: thorough tier
         for t0 in range(3):
             qs.append(ResQuery('safe_slow_waker_WW_R_R_first%d' % t0, ('WW', 'R', 'R'), K=K, prefix=[t0], timeout=2400, expect_reach=[],
                                desc={'threads': ['WW', 'R', 'R'], 'api': 'raw', 'first_scheduled_thread': t0, 'symbolic': 'the remaining %d schedule choices' % (K - 1),
